@@ -45,6 +45,32 @@ def dumps(o, **kw):
     return json.dumps(o, default=_jsonable, **kw)
 
 
+
+def _sweep_stale_work():
+    """remove work directories left behind by runs that were killed (their process is gone) - bounds disk usage"""
+    import re
+    root = os.path.join(VERIF, '.work')
+    try:
+        names = os.listdir(root)
+    except OSError:
+        return
+    for n in names:
+        m = re.match(r'^[A-Z0-9]+-(\d+)$', n)
+        if not m:
+            continue
+        pid = int(m.group(1))
+        if pid == os.getpid():
+            continue
+        try:
+            os.kill(pid, 0)
+            continue                      # still running
+        except ProcessLookupError:
+            pass
+        except OSError:
+            continue
+        shutil.rmtree(os.path.join(root, n), ignore_errors=True)
+
+
 class Ctx(object):
     def __init__(self, prop, tier, seed):
         self.prop = prop
@@ -52,6 +78,7 @@ class Ctx(object):
         self.seed = int(seed)
         self.t0 = time.time()
         self.work = os.path.join(VERIF, '.work', '%s-%d' % (prop, os.getpid()))
+        _sweep_stale_work()
         os.makedirs(self.work, exist_ok=True)
         self.replay_dir = os.path.join(VERIF, 'replays', prop)
         if os.path.abspath(os.environ.get('VERIF_REPO', '/repo')) != '/repo':
